@@ -60,10 +60,12 @@ func LinearAttempt(ctx context.Context, rate time.Duration, count int) <-chan ti
 				return
 			case t = <-ticker.C:
 			}
+			verifHook("attempt.tick")
 			if ctx.Err() != nil {
 				// guarantee at most one tick after context cancel
 				return
 			}
+			verifHook("attempt.send")
 			select {
 			case c <- t:
 				i++
